@@ -26,7 +26,7 @@
     trailing-backslash). With the proposed repair (notes/C16-fix-3.patch) it
     holds for all texts: [C16_fold_fixed_full]. *)
 From Cicada Require Import Base.Chars Base.Tag Model.Args Model.Tokenizer Model.Cmds Model.Redirect Model.Rerender
-  Proofs.TokenizerProofs Proofs.RerenderProofs Proofs.FoldProofs Proofs.ScriptLinesProofs.
+  Base.Regex Gen.ScriptRegexes Proofs.TokenizerProofs Proofs.RerenderProofs Proofs.FoldProofs Proofs.ScriptLinesProofs.
 Local Open Scope N_scope.
 
 Definition plan (l : str) := plan_tokens (parse_line l).
@@ -149,23 +149,36 @@ Proof. vm_compute. repeat split. Qed.
     script parser / the function body character for character -- in particular a
     line with a hash inside quotes is not cut -- so [expand_args] and then
     run_command_line see exactly what -c sees. *)
-Theorem C16_lines_reach_parser : forall ls, forallb plain_line ls = true ->
+Theorem C16_func_tail_is_source_regex : forall s, func_tail s = rx_search rx_func_tail s.
+Proof. exact func_tail_is_source_regex. Qed.
+
+(** hypotheses read on the pattern GENERATED from scripting.rs ([rx_func_tail]): a line is plain when
+    its trimmed text is not a function head and the source's closing-brace pattern does not match it *)
+Theorem C16_lines_reach_parser : forall ls, forallb plain_line_src ls = true ->
   extract_funcs ls false [] [] [] [] = ([], join_nl ls).
-Proof. exact lines_reach_parser. Qed.
+Proof. exact lines_reach_parser_src. Qed.
 
 Theorem C16_body_lines_reach_function : forall h nm ls t rest enter name0 body0 funcs tn,
-  func_head (trim h) = Some nm -> forallb plain_line ls = true ->
-  func_head (trim t) = None -> func_tail (trim t) = true ->
+  func_head (trim h) = Some nm -> forallb plain_line_src ls = true ->
+  func_head (trim t) = None -> rx_search rx_func_tail (trim t) = true ->
   extract_funcs (h :: ls ++ t :: rest) enter name0 body0 funcs tn =
   extract_funcs rest false nm (join_nl ls) (funcs ++ [(nm, join_nl ls)]) tn.
-Proof. exact body_lines_reach_function. Qed.
+Proof. exact body_lines_reach_function_src. Qed.
+
+(** lines that END in a closing brace are plain: only a line that IS a brace (after trim) closes a body.
+    prog x{a,b}   prog pre-${V}   prog a }   (and the two quote+hash witnesses below) *)
+Example C16_brace_end_lines_are_plain :
+  forallb plain_line_src [[112;114;111;103;32;120;123;97;44;98;125]; [112;114;111;103;32;112;114;101;45;36;123;86;125];
+                          [112;114;111;103;32;97;32;125]; [32;32;112;114;111;103;32;123;49;46;46;51;125;32]] = true /\
+  plain_line_src [32;125;32;9] = false.
+Proof. vm_compute. split; reflexivity. Qed.
 
 (* prog DQ it's #1 DQ x   and   prog 'say DQ hi #2' && echo ok   (DQ = the double quote): as a script
    and as the body of  function ff {  ...  }  followed by the call  ff *)
 Definition w_qh1 : str := [112;114;111;103;32;34;105;116;39;115;32;35;49;34;32;120].
 Definition w_qh2 : str := [112;114;111;103;32;39;115;97;121;32;34;104;105;32;35;50;39;32;38;38;32;101;99;104;111;32;111;107].
 Example C16_quote_hash_lines :
-  plain_line w_qh1 = true /\ plain_line w_qh2 = true /\
+  plain_line_src w_qh1 = true /\ plain_line_src w_qh2 = true /\
   function_table (w_qh1 ++ [c_nl] ++ w_qh2 ++ [c_nl]) = ([], w_qh1 ++ [c_nl] ++ w_qh2 ++ [c_nl]) /\
   function_table ([102;117;110;99;116;105;111;110;32;102;102;32;123;10] ++ w_qh1 ++ [10;125;10;102;102;10]) =
     ([([102;102], w_qh1 ++ [c_nl])], [102;102;10]) /\
@@ -184,3 +197,4 @@ Print Assumptions C16_fold_refuted.
 Print Assumptions C16_fold_fixed_full.
 Print Assumptions C16_lines_reach_parser.
 Print Assumptions C16_body_lines_reach_function.
+Print Assumptions C16_func_tail_is_source_regex.
